@@ -358,6 +358,45 @@ theorem C18_counter (ops : List Op) : (runOps dc dd Ev.init ops).counter = (runO
   rw [hdc]
   exact counter_eq_live true ops Ev.init (by intro h; cases h) (by simp [Ev.init]) (by simp [Ev.init, Ev.live])
 
+/-- the code as it is: one frame per remote node (regenerated) -/
+abbrev fd : Bool := Gen.Event.remoteFramePerNode
+
+/-- the statement for subscribers anywhere, parametric in the two code shapes -/
+def C18_remote_full (f d : Bool) : Prop :=
+  ∀ (self : Nat) (consumers : List (Nat × Nat)) (t : Nat × Nat), t ∈ consumers → copies f d self consumers t = 1
+
+/-- **Exactly once on every node, for the code as it is**: whatever the set of relations on the event — any number of
+subscribers on any number of nodes, by link, monitor or both (a pair may be listed more than once) — every
+subscriber is handed one copy of a publication. -/
+theorem C18_remote_exactly_once : C18_remote_full fd dd := by
+  have h1 : fd = true := by decide
+  have h2 : dd = true := by decide
+  rw [h1, h2]
+  intro self consumers t ht
+  have hon : t.2 ∈ (consumers.filter (fun c => c.1 = t.1)).map (·.2) :=
+    List.mem_map.mpr ⟨t, List.mem_filter.mpr ⟨ht, by simp⟩, rfl⟩
+  have hc : (fanout true ((consumers.filter (fun c => c.1 = t.1)).map (·.2))).count t.2 = 1 := by
+    rw [count_fanout]; simp [hon]
+  unfold copies
+  by_cases hs : t.1 = self
+  · simp only [hs, if_true]; rw [← hs]; exact hc
+  · simp only [hs, if_false]
+    rw [hc, Nat.mul_one]
+    unfold remoteNodes
+    simp only [if_true]
+    rw [count_dedupAux]
+    have : t.1 ∈ (consumers.filter (fun c => c.1 ≠ self)).map (·.1) :=
+      List.mem_map.mpr ⟨t, List.mem_filter.mpr ⟨ht, by simpa using hs⟩, rfl⟩
+    rw [if_neg (by simp), if_pos this]
+
+/-- a list instead of a set of remote nodes (seeded change C12-2): two subscribers on one remote node get every
+publication twice -/
+theorem C18_remote_frame_per_subscriber_duplicates : ¬ C18_remote_full false true := by
+  intro h
+  have := h 0 [(1, 5), (1, 6)] (1, 5) (by simp)
+  revert this
+  decide
+
 /-- non-vacuity: a history with two subscribers, a buffer of 2 and four publications -/
 example :
     let e := runOps true true Ev.init [.register 7 true 2, .sub 1 false, .publish 7 10, .publish 7 11, .publish 7 12, .sub 2 true]
